@@ -12,12 +12,19 @@ Four case kinds, all run against the real `pydrobert.torch` code in-process:
               width, pad_mode).
 * ``return``  ``time_distributed_return`` / ``TimeDistributedReturn``.
 
+Every kind also varies what the property text quantifies over only implicitly: the memory layout of
+the inputs (the result must not depend on strides), arguments left at their documented defaults, the
+`eps` clamp, accumulate calls of different rank, a `store` in the middle of a history, and checks that the
+caller's tensors are never modified.
+
 Exactness: features, rewards and pad values are small integers; the accumulators, the width-1
 deltas and the returns for dyadic gamma are then exact in float32/float64 and compared as
 rationals.  Means, variances, normalised outputs and width>1 deltas (the kernel k/sum(k^2) is
 not dyadic) go through the tolerance stream: the Lean model computes them exactly and the
 difference must stay below a bound far above float rounding and far below any real change.
 """
+import contextlib
+import io
 import itertools
 import math
 import os
@@ -55,6 +62,34 @@ def mk(tc, dtype):
     import torch
     dt = torch.float32 if dtype == "float32" else torch.float64
     return torch.tensor(tc["data"], dtype=dt).view(tc["shape"])
+
+
+def relayout(t, layout):
+    """The same values with another memory layout (the ops under test must not care)."""
+    if layout == "transposed" and t.dim() >= 2:
+        perm = list(reversed(range(t.dim())))
+        return t.permute(perm).contiguous().permute(perm)        # reversed strides
+    if layout == "strided" and t.dim() >= 1:
+        big = t.new_full(list(t.shape[:-1]) + [2 * t.size(-1) + 1], 77.0)
+        big[..., 1::2] = t
+        return big[..., 1::2]                                    # stride 2, storage offset 1
+    return t
+
+
+LAYOUTS = ("contig", "contig", "transposed", "strided")
+EPS_CHOICES = (None, None, None, "0", "1/4", "2", "16")
+
+
+def coeff_values(tensors, dim):
+    """Per coefficient of the normalised dimension: the values of all tensors (pure python)."""
+    out = {}
+    for t in tensors:
+        shape = t["shape"]
+        d = dim % len(shape)
+        inner = prod(shape[d + 1:])
+        for k, v in enumerate(t["data"]):
+            out.setdefault((k // inner) % shape[d], []).append(v)
+    return out
 
 
 def close(a, b, rtol, atol):
@@ -110,12 +145,23 @@ class C18(PropertyCheck):
     pid = "C18"
     rule = ("mvn: pools of <= 6 integer-valued tensors (ranks 1-4, every normalised dim incl. negative "
             "aliases, float32/float64), every ordering x every cut into chunks for <= 4 tensors (quick; <= 5 "
-            "thorough) and sampled for more, store(bessel) both ways, forward with stored / own / half-stored "
-            "statistics; cli: the directory command with --num-workers 0, with and without groups; deltas: "
-            "orders 0-3 x widths 1-3 x 4 pad modes, every legal (dim, time_dim, concatenate) on rank 2-4 inputs "
-            "incl. negative aliases, functional and module, plus a malformed stream; returns: gamma in "
-            "{0, +-1/2, 1/4, +-1, 2} x T <= 8 x both layouts exact, real gammas within tolerance, long horizons "
-            "oracle-only. non-trivial: >= 2 chunks / order >= 1 / gamma != 0 and T >= 2; distinct by case.")
+            "thorough) and sampled for more, store(bessel) both ways; per case additionally: eps in {default, 0 "
+            "(no constant coefficient), 1/4, 2, 16} (clamp inactive / active), memory layout of every chunk and of "
+            "the pooled tensor in {contiguous, reversed strides, stride 2 + offset}, accumulate calls of "
+            "different rank over the same frames, store(delete_stats=False) in the middle of the history "
+            "(buffers must survive, later accumulate + store pool everything), store(delete_stats=True) then "
+            "store (must raise) then accumulate (fresh start), forward with stored / own / half-stored "
+            "statistics through module and functional, arguments equal to documented defaults left out, inputs "
+            "must not be modified; cli: the directory command with --num-workers 0, with and without "
+            "--id2gid (1-3 groups, ids without a file, groups without a file, a file missing from the map -> "
+            "exit 1, whitespace styles), --bessel, default --dim/prefix/suffix left out, files of different "
+            "rank, stray files, an empty directory; deltas: orders 0-3 x widths 1-3 x 4 pad modes, every legal "
+            "(dim, time_dim, concatenate) on rank 2-4 inputs incl. negative aliases, widths 4-10 / orders 4-5, "
+            "fractional pad value, non-contiguous inputs, an axis of extent 0, the all-defaults call, "
+            "functional and module (also on the malformed stream); returns: gamma in {0, +-1/2, 1/4, +-1, 2} "
+            "(also as python int) x T <= 8 x both layouts exact, non-contiguous rewards, empty batch, rewards "
+            "that are not 2-D (RuntimeError), real gammas within tolerance, long horizons oracle-only. "
+            "non-trivial: >= 2 chunks / order >= 1 / gamma != 0 and T >= 2; distinct by case.")
     assumptions = [
         "float rounding is not modelled: accumulators, width-1 deltas and dyadic-gamma returns are compared "
         "exactly on integer-valued inputs; means, variances, normalised outputs, width>1 deltas and "
@@ -165,7 +211,26 @@ class C18(PropertyCheck):
             tensors.append({"shape": shape, "data": data})
         return {"kind": "mvn", "dtype": dtype, "dim": dim, "cat_axis": cat_axis, "tensors": tensors}
 
+    def decorate_mvn(self, rng, case):
+        """Options beyond the history itself: eps (default / 0 / above the deviations), the memory layout
+        of every chunk and of the pooled tensor, accumulate calls of different rank over the same frames,
+        and a store(delete_stats=False) in the middle of the history (accumulate after store)."""
+        n = len(case["history"])
+        eps = rng.choice(EPS_CHOICES)
+        if eps == "0":
+            vals = coeff_values(case["tensors"], case["dim"])
+            X = case["tensors"][0]["shape"][case["dim"] % len(case["tensors"][0]["shape"])]
+            if len(vals) < X or any(len(set(v)) < 2 for v in vals.values()):
+                eps = None          # 0 / max(0, 0) is not specified: eps = 0 only without constant coefficients
+        return dict(case, eps=eps, layouts=[rng.choice(LAYOUTS) for _ in range(n + 1)],
+                    lift=[rng.random() < 0.25 for _ in range(n)],
+                    store_after=rng.randrange(1, n) if n >= 2 and rng.random() < 0.5 else None)
+
     def gen_mvn(self, rng, big):
+        for c in self.gen_mvn_plain(rng, big):
+            yield self.decorate_mvn(rng, c)
+
+    def gen_mvn_plain(self, rng, big):
         full_upto = 5 if big else 4
         npools = 3 if big else 2
         for n in range(1, full_upto + 1):
@@ -215,8 +280,8 @@ class C18(PropertyCheck):
 
     # ---------------------------------------------------------------- cli
     def gen_cli(self, rng, big):
-        for k in range(60 if big else 20):
-            nfiles = rng.randrange(1, 6)
+        for k in range(70 if big else 26):
+            nfiles = rng.randrange(1, 6) if k > 1 else 0       # two runs on a directory without features
             rank = rng.choice([2, 2, 3])
             dim = rng.choice([-1, -1, 0, 1, -2]) if rank >= 2 else -1
             d = dim % rank
@@ -225,13 +290,21 @@ class C18(PropertyCheck):
             for i in range(nfiles):
                 shape = [rng.choice([1, 2, 3]) for _ in range(rank)]
                 shape[d] = X
+                if dim < 0 and rng.random() < 0.25:
+                    shape = [rng.choice([1, 2])] + shape        # files of different rank (negative dim)
                 files.append({"id": f"u{rng.randrange(100):02d}x{i}", "shape": shape,
                               "data": [rng.randrange(-8, 9) for _ in range(prod(shape))]})
-            groups = None
-            if rng.random() < 0.4:
-                groups = {f["id"]: rng.choice(["g1", "g2"]) for f in files}
+            groups = absent = None
+            unlisted = False
+            if rng.random() < 0.5:
+                gids = rng.choice([["g1", "g2"], ["g1", "g2", "g3"], ["only"]])
+                groups = {f["id"]: rng.choice(gids) for f in files}
+                # ids listed in the map without a file in the directory (their group may stay empty)
+                absent = {f"zz{j}": rng.choice(gids + ["ghost"]) for j in range(rng.choice([0, 0, 1, 2]))}
+                unlisted = nfiles >= 1 and rng.random() < 0.12  # a file the map does not mention: error
             yield {"kind": "cli", "dim": dim, "bessel": rng.random() < 0.5, "files": files, "groups": groups,
-                   "prefix": rng.choice(["", "p-"]), "suffix": rng.choice([".pt", ".feat"]),
+                   "absent": absent, "unlisted": unlisted, "map_style": rng.randrange(4),
+                   "prefix": rng.choice(["", "", "p-"]), "suffix": rng.choice([".pt", ".pt", ".feat"]),
                    "dtype": rng.choice(["float32", "float64"])}
 
     # ---------------------------------------------------------------- deltas
@@ -244,10 +317,11 @@ class C18(PropertyCheck):
         if shape[td] < need:
             shape[td] = need + rng.choice([0, 0, 1, 2])
         if value is None:
-            value = rng.choice([0, 0, 1, -3]) if mode == "constant" else 0
+            value = rng.choice([0, 0, 1, -3, 0.5]) if mode == "constant" else 0
         return {"kind": "deltas", "shape": shape, "data": [rng.randrange(-8, 9) for _ in range(prod(shape))],
                 "dim": dim, "time_dim": time_dim, "concatenate": concatenate, "order": order, "width": width,
-                "pad_mode": mode, "value": value, "dtype": dtype or rng.choice(["float32", "float32", "float64"])}
+                "pad_mode": mode, "value": value, "dtype": dtype or rng.choice(["float32", "float32", "float64"]),
+                "layout": rng.choice(LAYOUTS)}
 
     def layouts(self, D, negatives):
         for td in range(D):
@@ -289,6 +363,27 @@ class C18(PropertyCheck):
                 yield self.delta_case(rng, [rng.choice([1, 2, 5])], 0, 0, False, o, rng.choice([1, 2, 3]), mode)
                 yield self.delta_case(rng, [rng.choice([1, 2, 5])], 0, 0, True, o, rng.choice([1, 2, 3]), mode)
                 yield self.delta_case(rng, [2, 4, 3], -1, -2, True, o, 2, mode)
+        # (e) the documented defaults themselves: feat_deltas(x) / FeatureDeltas()(x) without any argument
+        for D in (2, 3, 4):
+            yield self.delta_case(rng, self.rand_shape(rng, D), -1, -2, True, 2, 2, "replicate")
+        # (f) wide windows and high orders (the kernel k / sum k^2 beyond width 3, 4-fold convolution)
+        for o, w in ((1, 4), (1, 5), (1, 7), (2, 4), (4, 1), (4, 2), (1, 10), (0, 10)) + \
+                (((2, 6), (3, 4), (5, 1)) if big else ()):
+            for mode in (PAD_MODES if big else (PAD_MODES[(o + w) % 4], PAD_MODES[(o + w + 1) % 4])):
+                D = rng.choice([1, 2, 3])
+                td, dm, cat = rng.choice(list(self.layouts(D, negatives=False)))
+                shape = self.rand_shape(rng, D)
+                shape[td] = rng.choice([1, 3, 8])
+                yield self.delta_case(rng, shape, dm, td, cat, o, w, mode)
+        # (g) an axis of extent zero (not the time axis): an empty result of the right shape
+        for D in (2, 3):
+            for rep in range(4 if big else 2):
+                td, dm, cat = rng.choice(list(self.layouts(D, negatives=False)))
+                shape = self.rand_shape(rng, D)
+                shape[rng.choice([a for a in range(D) if a != td])] = 0
+                o, w = rng.choice([(1, 1), (2, 2), (0, 1)])
+                shape[td] = max(shape[td], o * w + 1)
+                yield self.delta_case(rng, shape, dm, td, cat, o, w, rng.choice(PAD_MODES))
         # (d) malformed: illegal pads, dims out of range, width 0, negative order
         for D in (2, 3):
             for rep in range(6 if big else 3):
@@ -324,14 +419,25 @@ class C18(PropertyCheck):
                                 r = [[r[t][n] for t in range(T)] for n in range(N)]
                             yield {"kind": "return", "r": r, "rows": N if bf else T, "cols": T if bf else N,
                                    "gamma": g, "batch_first": bf, "stream": "exact",
-                                   "dtype": rng.choice(["float32", "float64"])}
+                                   "dtype": rng.choice(["float32", "float64"]), "layout": rng.choice(LAYOUTS),
+                                   "int_gamma": "/" not in g and rng.random() < 0.5}
         for rep in range(120 if big else 30):
             T, N = rng.randrange(1, 41), rng.randrange(1, 4)
             bf = rng.random() < 0.5
             g = rng.choice([0.9, 0.99, 0.3, 1.1, -0.7, 0.5, 1.0])
             r = [[rng.randrange(-8, 9) for _ in range(T if bf else N)] for _ in range(N if bf else T)]
             yield {"kind": "return", "r": r, "rows": len(r), "cols": T if bf else N, "gamma": frac_str(g),
-                   "batch_first": bf, "stream": "tol", "dtype": rng.choice(["float32", "float64"])}
+                   "batch_first": bf, "stream": "tol", "dtype": rng.choice(["float32", "float64"]),
+                   "layout": rng.choice(LAYOUTS)}
+        # an empty batch; integer-typed gamma; rewards that are not 2-dimensional (documented RuntimeError)
+        for bf in (False, True):
+            for g in ("1/2", "0", "2"):
+                T = rng.randrange(1, 5)
+                yield {"kind": "return", "r": [[] for _ in range(T)] if not bf else [], "rows": 0 if bf else T,
+                       "cols": T if bf else 0, "gamma": g, "batch_first": bf, "stream": "exact", "dtype": "float32"}
+            for shape in ([3], [2, 2, 2], []):
+                yield {"kind": "return", "bad_shape": shape, "gamma": rng.choice(["1/2", "0", "1"]),
+                       "batch_first": bf, "stream": "malformed", "dtype": "float32"}
         # long horizons (oracle only): every R_t is representable, gamma^t alone underflows
         for T, g in ((200, 0.5), (1000, 0.9), (1200, 0.5)) + (((3000, 0.95), (1500, -0.9)) if big else ()):
             for bf in (False, True):
@@ -346,20 +452,48 @@ class C18(PropertyCheck):
     def chunks_of(self, case):
         import torch
         ts = [mk(t, case["dtype"]) for t in case["tensors"]]
+        lift, lay = case.get("lift") or [], case.get("layouts") or []
         out = []
-        for ch in case["history"]:
+        for j, ch in enumerate(case["history"]):
             if case["cat_axis"] is None:
                 assert len(ch) == 1
-                out.append(ts[ch[0]])
+                c = ts[ch[0]]
             else:
-                out.append(torch.cat([ts[i] for i in ch], case["cat_axis"]))
+                c = torch.cat([ts[i] for i in ch], case["cat_axis"])
+            if j < len(lift) and lift[j]:
+                # the same frames as a tensor of one more rank (the normalised dim keeps its meaning)
+                c = c.unsqueeze(0) if case["dim"] < 0 else c.unsqueeze(-1)
+            if lay:
+                c = relayout(c, lay[j % len(lay)])
+            out.append(c)
         return ts, out
 
     def pooled_of(self, case, ts):
         import torch
         if case["cat_axis"] is None:
-            return torch.stack(ts, 0), -1     # rank 1: the frames stacked; coefficient axis is last
-        return torch.cat(ts, case["cat_axis"]), case["dim"]
+            p, d = torch.stack(ts, 0), -1     # rank 1: the frames stacked; coefficient axis is last
+        else:
+            p, d = torch.cat(ts, case["cat_axis"]), case["dim"]
+        lay = case.get("layouts")
+        return (relayout(p, lay[-1]) if lay else p), d
+
+    def mid_of(self, case):
+        k = case.get("store_after")
+        if k is None:
+            return None
+        k = min(k, len(case["history"]) - 1)
+        return k if k >= 1 else None
+
+    def new_mvn(self, dim, mean=None, std=None, eps=None):
+        """Arguments equal to their documented default (dim=-1, eps=config.TINY) are left out of the call."""
+        from pydrobert.torch.modules import MeanVarianceNormalization
+        kw = {} if eps is None else {"eps": float(Fraction(eps))}
+        if dim == -1 and mean is None and std is None:
+            return MeanVarianceNormalization(**kw)
+        return MeanVarianceNormalization(dim, mean, std, **kw)
+
+    def acc_obs(self, mvn):
+        return {"count": frac_str(mvn.count.item()), "sum": fl(mvn.sum.tolist()), "sumsq": fl(mvn.sumsq.tolist())}
 
     def col_stats(self, y, dim):
         yc = y.double().movedim(dim, 0).flatten(1)
@@ -369,41 +503,79 @@ class C18(PropertyCheck):
 
     def impl_mvn(self, case):
         import torch
-        from pydrobert.torch.modules import MeanVarianceNormalization
         from pydrobert.torch.functional import mean_var_norm
         ts, chunks = self.chunks_of(case)
         pooled, pdim = self.pooled_of(case, ts)
-        mvn = MeanVarianceNormalization(case["dim"])
-        for c in chunks:
+        eps = case.get("eps")
+        ekw = {} if eps is None else {"eps": float(Fraction(eps))}
+        mid = self.mid_of(case)
+        mutated = []
+        mvn = self.new_mvn(case["dim"], eps=eps)
+        obs = {}
+        for j, c in enumerate(chunks):
+            if mid is not None and j == mid:
+                # store in the middle of the history, keeping the buffers: they must stay what they were
+                before = self.acc_obs(mvn)
+                try:
+                    mvn.store(delete_stats=False, bessel=case["bessel"])
+                    obs["mid"] = {"acc": before, "mean": fl(mvn.mean.tolist()), "std": fl(mvn.std.tolist())}
+                except RuntimeError:
+                    obs["mid"] = {"acc": before, "mean": None}
+                obs["mid"]["buffers_kept"] = mvn.count is not None and self.acc_obs(mvn) == before
+            keep = c.clone()
             mvn.accumulate(c)
-        obs = {"acc": {"count": frac_str(mvn.count.item()), "sum": fl(mvn.sum.tolist()),
-                       "sumsq": fl(mvn.sumsq.tolist())},
-               "buffers_double": all(b.dtype == torch.float64 for b in (mvn.count, mvn.sum, mvn.sumsq))}
+            if not torch.equal(keep, c):
+                mutated.append("accumulate")
+        obs["acc"] = self.acc_obs(mvn)
+        obs["buffers_double"] = all(b.dtype == torch.float64 for b in (mvn.count, mvn.sum, mvn.sumsq))
         frames = pooled.numel() // max(pooled.size(pdim), 1)
         obs["frames"] = frames
+        keep = pooled.clone()
         if frames:
-            own = MeanVarianceNormalization(pdim)(pooled)
+            own = self.new_mvn(pdim, eps=eps)(pooled)
             obs["own"] = {"y": fl(own.flatten().tolist()), "stats": self.col_stats(own, pdim),
-                          "dtype_ok": own.dtype == pooled.dtype and own.shape == pooled.shape}
+                          "dtype_ok": own.dtype == pooled.dtype and own.shape == pooled.shape,
+                          "functional_equal": bool(torch.equal(
+                              own, mean_var_norm(pooled, **({} if pdim == -1 else {"dim": pdim}), **ekw)))}
         try:
             mvn.store(delete_stats=False, bessel=case["bessel"])
         except RuntimeError as e:
             obs["store"] = None
             obs["store_error"] = str(e)[:80]
+            obs["mutated"] = mutated
             return obs
         mean, std = mvn.mean, mvn.std
-        mvn2 = MeanVarianceNormalization(pdim, mean, std)
+        mvn2 = self.new_mvn(pdim, mean, std, eps)
         y = mvn2(pooled)
+        y_mean_only = mean_var_norm(pooled, pdim, mean, None, **ekw)
+        y_std_only = mean_var_norm(pooled, pdim, None, std, **ekw)
         obs["store"] = {
             "mean": fl(mean.tolist()), "std": fl(std.tolist()),
             "y": fl(y.flatten().tolist()), "stats": self.col_stats(y, pdim),
-            "y_mean_only": fl(mean_var_norm(pooled, pdim, mean, None).flatten().tolist()),
-            "y_std_only": fl(mean_var_norm(pooled, pdim, None, std).flatten().tolist()),
+            "y_mean_only": fl(y_mean_only.flatten().tolist()),
+            "y_std_only": fl(y_std_only.flatten().tolist()),
             "same_via_self": bool(torch.equal(mvn.to(pooled.device)(pooled) if pdim == case["dim"] else y, y)),
+            "module_half_equal": bool(
+                torch.equal(self.new_mvn(pdim, mean, None, eps)(pooled), y_mean_only)
+                and torch.equal(self.new_mvn(pdim, None, std, eps)(pooled), y_std_only)
+                and torch.equal(mean_var_norm(pooled, pdim, mean, std, **ekw), y)),
+            "buffers_kept": mvn.count is not None and self.acc_obs(mvn) == obs["acc"],
         }
-        # store(delete_stats=True) must forget the buffers
+        if not torch.equal(keep, pooled):
+            mutated.append("forward")
+        # store(delete_stats=True) must forget the buffers and write the same statistics
         mvn.store(delete_stats=True, bessel=case["bessel"])
         obs["store"]["deleted"] = mvn.count is None and mvn.sum is None and mvn.sumsq is None
+        obs["store"]["same_after_delete"] = bool(torch.equal(mvn.mean, mean) and torch.equal(mvn.std, std))
+        # nothing accumulated any more: store must raise, accumulate must start from zero
+        try:
+            mvn.store(bessel=case["bessel"])
+            obs["store"]["empty_store_raises"] = False
+        except RuntimeError:
+            obs["store"]["empty_store_raises"] = True
+        mvn.accumulate(chunks[0])
+        obs["restart"] = self.acc_obs(mvn)
+        obs["mutated"] = mutated
         return obs
 
     def req_mvn(self, case):
@@ -414,12 +586,18 @@ class C18(PropertyCheck):
             pooled = pooled.new_zeros([1 if i != pdim % pooled.dim() else pooled.size(pdim)
                                        for i in range(pooled.dim())])
         from pydrobert.torch import config
+        eps = case.get("eps")
         # the module is built with case["dim"]; the pooled tensor of a rank-1 pool is rank 2 with dim -1.
         return {"op": "c18.mvn", "case": {
-            "dim": case["dim"], "pooled_dim": pdim, "bessel": case["bessel"], "eps": frac_str(config.TINY),
+            "dim": case["dim"], "pooled_dim": pdim, "bessel": case["bessel"],
+            "eps": frac_str(config.TINY) if eps is None else eps, "mid": self.mid_of(case),
             "chunks": [tcase(c) for c in chunks], "pooled": tcase(pooled)}}
 
     # ---------------------------------------------------------------- cli
+    def cli_expect_rc1(self, case):
+        """Documented error exits: no feature file at all (without groups), or a file the map does not list."""
+        return bool(case.get("unlisted")) or (not case["files"] and case["groups"] is None)
+
     def impl_cli(self, case):
         import torch
         from pydrobert.torch import command_line
@@ -428,26 +606,41 @@ class C18(PropertyCheck):
             os.mkdir(d)
             for f in case["files"]:
                 torch.save(mk(f, case["dtype"]), os.path.join(d, case["prefix"] + f["id"] + case["suffix"]))
-            # a file that must be ignored (different suffix)
-            torch.save(torch.full((2, 7), 99.0), os.path.join(d, "stray.ignored"))
+            # files that must be ignored: other suffix, other prefix
+            torch.save(torch.full((2, 7), 99.0), os.path.join(d, case["prefix"] + "stray.ignored"))
+            if case["prefix"]:
+                torch.save(torch.full((2, 7), 99.0), os.path.join(d, "q-stray" + case["suffix"]))
             out = os.path.join(td, "out.pt")
-            args = [d, out, "--num-workers", "0", "--dim", str(case["dim"]),
-                    "--file-prefix", case["prefix"], "--file-suffix", case["suffix"]]
+            # options equal to their documented default (--dim -1, no prefix, suffix .pt) are left out
+            args = [d, out, "--num-workers", "0"]
+            if case["dim"] != -1:
+                args += ["--dim", str(case["dim"])]
+            if case["prefix"] != "":
+                args += ["--file-prefix", case["prefix"]]
+            if case["suffix"] != ".pt":
+                args += ["--file-suffix", case["suffix"]]
             if case["bessel"]:
                 args.append("--bessel")
             if case["groups"] is not None:
                 gp = os.path.join(td, "id2gid")
+                lines = list(case["groups"].items())
+                if case.get("unlisted"):
+                    lines = lines[:-1]
+                lines += list((case.get("absent") or {}).items())
+                style = case.get("map_style", 0)
                 with open(gp, "w") as fh:
-                    for k, v in case["groups"].items():
-                        fh.write(f"{k} {v}\n")
+                    for i, (k, v) in enumerate(sorted(lines) if style & 1 else lines):
+                        fh.write(f"{k} {v}\n" if not style & 2 else f"  {k}\t  {v}  \n" + ("\n" if i == 0 else ""))
                 args += ["--id2gid", gp]
-            rc = command_line.compute_mvn_stats_for_torch_feat_data_dir(args)
+            with contextlib.redirect_stderr(io.StringIO()):
+                rc = command_line.compute_mvn_stats_for_torch_feat_data_dir(args)
             if rc:
-                return {"rc": rc}
+                return {"rc": rc, "wrote": os.path.exists(out)}
             res = torch.load(out)
         if case["groups"] is None:
             res = {"": res}
-        return {"rc": 0, "groups": [
+        keys_ok = all(set(v) == {"mean", "std"} for v in res.values())
+        return {"rc": 0, "keys_ok": keys_ok, "groups": [
             {"gid": g, "mean": fl(v["mean"].tolist()), "std": fl(v["std"].tolist())}
             for g, v in sorted(res.items())]}
 
@@ -456,29 +649,47 @@ class C18(PropertyCheck):
         if case["groups"] is None:
             groups = [{"gid": "", "files": [{"shape": f["shape"], "data": f["data"]} for f in files]}]
         else:
+            # a group is written only when at least one of its files exists
             gids = sorted(set(case["groups"].values()))
             groups = [{"gid": g, "files": [{"shape": f["shape"], "data": f["data"]} for f in files
                                            if case["groups"][f["id"]] == g]} for g in gids]
         return {"op": "c18.cli", "case": {"dim": case["dim"], "bessel": case["bessel"], "groups": groups}}
 
     # ---------------------------------------------------------------- deltas
+    DELTA_DEFAULTS = {"dim": -1, "time_dim": -2, "concatenate": True, "order": 2, "width": 2,
+                      "pad_mode": "replicate", "value": 0.0}
+
     def impl_deltas(self, case):
         import torch
         from pydrobert.torch.functional import feat_deltas
         from pydrobert.torch.modules import FeatureDeltas
-        x = mk(case, case["dtype"])
+        x = relayout(mk(case, case["dtype"]), case.get("layout"))
+        keep = x.clone()
         args = (case["dim"], case["time_dim"], case["concatenate"], case["order"], case["width"],
                 case["pad_mode"], float(case["value"]))
+        # the same call with every argument that equals its documented default left out
+        kw = {k: v for k, v in zip(self.DELTA_DEFAULTS, args) if v != self.DELTA_DEFAULTS[k]}
         try:
             y = feat_deltas(x, *args)
         except (RuntimeError, IndexError, ValueError) as e:
-            return {"raised": type(e).__name__, "message": str(e)[:120]}
+            obs = {"raised": type(e).__name__, "message": str(e)[:120]}
+            try:
+                FeatureDeltas(*args).to(x.dtype)(x)
+                obs["module_raised"] = False
+            except Exception:
+                obs["module_raised"] = True
+            return obs
         obs = {"shape": list(y.shape), "data": fl(y.flatten().tolist()), "dtype_ok": y.dtype == x.dtype}
         try:
             ym = FeatureDeltas(*args).to(x.dtype)(x)   # the filter buffer follows the module's dtype
             obs["module_equal"] = bool(ym.shape == y.shape and torch.equal(ym, y))
+            yk = feat_deltas(x, **kw)
+            ymk = FeatureDeltas(**kw).to(x.dtype)(x)
+            obs["defaults_equal"] = bool(yk.shape == y.shape and torch.equal(yk, y)
+                                         and ymk.shape == y.shape and torch.equal(ymk, y))
         except Exception as e:
             obs["module_equal"] = f"module raised {type(e).__name__}: {e}"[:160]
+        obs["input_kept"] = bool(torch.equal(keep, x))
         return obs
 
     def req_deltas(self, case):
@@ -519,15 +730,32 @@ class C18(PropertyCheck):
             return {"finite": finite, "nonfinite": nonfinite, "T": T,
                     "first_bad_t": int((~torch.isfinite(R)).any(0).nonzero()[0]) if nonfinite else None,
                     "max_residual": float(res.max()) if T else 0.0}
+        if case["stream"] == "malformed":
+            r = torch.zeros(case["bad_shape"], dtype=dt)
+            out = {}
+            for name, f in (("functional", lambda: time_distributed_return(r, g, case["batch_first"])),
+                            ("module", lambda: TimeDistributedReturn(g, case["batch_first"])(r))):
+                try:
+                    f()
+                    out[name] = "returned"
+                except Exception as e:
+                    out[name] = type(e).__name__
+            return out
         rows, cols = case["rows"], case["cols"]
-        r = torch.tensor(case["r"], dtype=dt).view(rows, cols)
+        r = relayout(torch.tensor(case["r"], dtype=dt).view(rows, cols), case.get("layout"))
+        keep = r.clone()
+        if case.get("int_gamma"):
+            g = int(Fraction(case["gamma"]))       # gamma = 0, 1, 2 given as a python int
         R = time_distributed_return(r, g, case["batch_first"])
         Rm = TimeDistributedReturn(g, case["batch_first"])(r)
+        # batch_first equal to the functional's documented default (False) left out of the call
+        Rk = time_distributed_return(r, g) if not case["batch_first"] else R
         return {"shape": list(R.shape), "R": [fl(row) for row in R.tolist()],
-                "module_equal": bool(torch.equal(R, Rm) or (R != R).any()), "dtype_ok": R.dtype == r.dtype}
+                "module_equal": bool((torch.equal(R, Rm) and torch.equal(R, Rk)) or (R != R).any()),
+                "dtype_ok": R.dtype == r.dtype, "input_kept": bool(torch.equal(keep, r))}
 
     def req_return(self, case):
-        if case.get("long"):
+        if case.get("long") or case["stream"] == "malformed":
             return None
         return {"op": "c18.return", "case": {"r": case["r"], "cols": case["cols"], "gamma": case["gamma"],
                                              "batch_first": case["batch_first"]}}
@@ -546,12 +774,28 @@ class C18(PropertyCheck):
     def tol(self, case):
         return (2e-4, 2e-5) if case.get("dtype") == "float32" else (1e-9, 1e-10)
 
+    @staticmethod
+    def acc_eq(a, b):
+        return a is not None and b is not None and \
+            (F(a["count"]), [F(v) for v in a["sum"]], [F(v) for v in a["sumsq"]]) == \
+            (F(b["count"]), [F(v) for v in b["sum"]], [F(v) for v in b["sumsq"]])
+
     def cmp_mvn(self, case, impl, model):
         out = []
         a, b = impl["acc"], model["acc"]
-        if (F(a["count"]), [F(v) for v in a["sum"]], [F(v) for v in a["sumsq"]]) != \
-                (F(b["count"]), [F(v) for v in b["sum"]], [F(v) for v in b["sumsq"]]):
+        if not self.acc_eq(a, b):
             out.append(f"accumulators differ: impl={a} model={b}")
+        if "mid" in impl:
+            mi, mm = impl["mid"], model["mid"]
+            if not self.acc_eq(mi["acc"], mm["acc"]):
+                out.append(f"accumulators before the mid-history store differ: impl={mi['acc']} model={mm['acc']}")
+            if (mi["mean"] is None) != (mm["store"] is None):
+                out.append("mid-history store: impl and model disagree on raising")
+            elif mi["mean"] is not None:
+                bad = first_bad(mi["mean"], mm["store"]["mean"], 1e-12, 1e-12) or \
+                    first_bad([frac_str(F(v) * F(v)) for v in mi["std"]], mm["store"]["var"], 1e-10, 1e-10)
+                if bad:
+                    out.append(f"mid-history statistics differ: {bad}")
         rt, at = self.tol(case)
         if impl["frames"]:
             bad = first_bad(impl["own"]["y"], model["own"]["y"], rt, at)
@@ -578,10 +822,15 @@ class C18(PropertyCheck):
             bad = first_bad(s[k], m[k], rt, at)
             if bad:
                 out.append(f"forward ({k}) differs: {bad}")
+        if not self.acc_eq(impl["restart"], model["restart"]):
+            out.append(f"buffers after store(delete_stats=True) + accumulate differ: impl={impl['restart']} "
+                       f"model={model['restart']}")
         return out
 
     def cmp_cli(self, case, impl, model):
         out = []
+        if self.cli_expect_rc1(case):
+            return [] if impl.get("rc") == 1 else [f"expected exit status 1, got {impl.get('rc')}"]
         want_err = any(g["stats"] is None for g in model)
         if impl.get("rc"):
             return [f"command returned {impl['rc']}"]
@@ -624,7 +873,7 @@ class C18(PropertyCheck):
         return out
 
     def cmp_return(self, case, impl, model):
-        if case.get("long"):
+        if case.get("long") or case["stream"] == "malformed":
             return []
         m = model["model"]
         if case["stream"] == "exact":
@@ -657,9 +906,23 @@ class C18(PropertyCheck):
         frames = impl["frames"]
         if not impl["buffers_double"]:
             fails.append(("accumulation buffers are not double precision", None))
+        if impl.get("mutated"):
+            fails.append((f"the caller's tensor was modified in place by {impl['mutated']}", None))
         a = impl["acc"]
         if F(a["count"]) != frames:
             fails.append((f"count {a['count']} is not the number of frames {frames}", None))
+        if "mid" in impl:
+            # accumulate after store: a store that keeps the buffers must not change them, and what it
+            # wrote is the pooled statistics of the frames seen so far
+            mi, mm = impl["mid"], model["mid"]
+            if not mi["buffers_kept"]:
+                fails.append(("store(delete_stats=False) changed the accumulation buffers", None))
+            if mi["mean"] is not None and mm["store"] is not None:
+                bad = first_bad(mi["mean"], mm["store"]["mean"], 1e-12, 1e-12) or \
+                    first_bad([frac_str(F(v) * F(v)) for v in mi["std"]], mm["store"]["var"], 1e-10, 1e-10)
+                if bad:
+                    fails.append((f"statistics stored in the middle of the history are not the pooled "
+                                  f"statistics of the frames seen so far: {bad}", None))
         need = 2 if case["bessel"] else 1
         if frames < need:
             if impl["store"] is not None:
@@ -681,14 +944,37 @@ class C18(PropertyCheck):
                           f"variance: {bad}", None))
         if not s["deleted"]:
             fails.append(("store(delete_stats=True) kept the buffers", None))
+        if not s["buffers_kept"]:
+            fails.append(("store(delete_stats=False) changed the accumulation buffers", None))
+        if not s["same_after_delete"]:
+            fails.append(("store(delete_stats=True) wrote other statistics than store(delete_stats=False)", None))
+        if not s["empty_store_raises"]:
+            fails.append(("store() succeeded although the statistics had been deleted", None))
+        if not self.acc_eq(impl["restart"], model["restart"]):
+            fails.append((f"accumulate after store(delete_stats=True) does not start from zero: "
+                          f"{impl['restart']}", None))
         if not s["same_via_self"]:
             fails.append(("the module's own forward differs from a module built from its mean/std", None))
+        if not s["module_half_equal"]:
+            fails.append(("module and functional differ (mean only / std only / both given)", None))
         rt, at = self.tol(case)
+        # forward is (x - mean[i]) / max(std[i], eps) entry by entry (the formula, evaluated by the spec)
+        for k, what in (("y", "stored statistics"), ("y_mean_only", "stored mean, own deviation"),
+                        ("y_std_only", "own mean, stored deviation")):
+            bad = first_bad(s[k], spec[k], rt, at)
+            if bad:
+                fails.append((f"forward with {what} is not (x - mean[i]) / max(std[i], eps): {bad}", None))
+        bad = first_bad(impl["own"]["y"], spec["own_y"], rt, at)
+        if bad:
+            fails.append((f"forward with own statistics is not (x - mean[i]) / max(std[i], eps): {bad}", None))
+        if not impl["own"]["functional_equal"]:
+            fails.append(("module and functional differ (own statistics)", None))
         pt = 50 * at * (1 + float(n))
-        # normalising the pooled data with the stored statistics: zero mean, unit variance
+        eps = F(case.get("eps") or 0)
+        # normalising the pooled data with the stored statistics: zero mean, unit variance (clamp inactive)
         scale = n / (n - 1) if case["bessel"] else Fraction(1)
         for i, v in enumerate(spec["var"]):
-            if F(v) <= 0:
+            if F(v) <= 0 or F(v) < eps * eps:
                 continue
             if not close(s["stats"]["m1"][i], 0, 0, pt):
                 fails.append((f"normalised coefficient {i} has mean {float(F(s['stats']['m1'][i])):.3g}", None))
@@ -697,7 +983,7 @@ class C18(PropertyCheck):
                               f"{float(F(s['stats']['m2'][i]) * scale):.6g}", None))
         for i, v in enumerate(spec["own_var"]):
             o = impl["own"]["stats"]
-            if F(v) <= 0:
+            if F(v) <= 0 or F(v) < eps * eps:
                 continue
             if not close(o["m1"][i], 0, 0, pt) or not close(o["m2"][i], 1, 0, pt):
                 fails.append((f"own-statistics forward: coefficient {i} has mean "
@@ -715,9 +1001,19 @@ class C18(PropertyCheck):
         return any(v == 1 for v in frames.values())
 
     def pred_cli(self, case, impl, model):
+        if self.cli_expect_rc1(case):
+            if impl.get("rc") == 1 and not impl.get("wrote"):
+                return []
+            return [(f"no features / a file missing from the id map: expected exit status 1 and no output, got "
+                     f"{impl.get('rc')}" + (" and an output file" if impl.get("wrote", True) else ""), None)]
         if impl.get("rc"):
             return [(f"command returned {impl['rc']}", None)]
         fails = []
+        if not impl["keys_ok"]:
+            fails.append(("every entry of the output must hold exactly 'mean' and 'std'", None))
+        if [g["gid"] for g in impl["groups"]] != [g["gid"] for g in model]:
+            return fails + [(f"groups written {[g['gid'] for g in impl['groups']]}, groups with files "
+                             f"{[g['gid'] for g in model]}", None)]
         for a, b in zip(impl["groups"], model):
             if b["stats"] is None:
                 fails.append((f"group {a['gid']!r}: statistics written although too few frames", None))
@@ -730,7 +1026,10 @@ class C18(PropertyCheck):
 
     def pred_deltas(self, case, impl, model):
         if model["spec"] == "error":
-            return [] if "raised" in impl else [("illegal arguments accepted", None)]
+            if "raised" not in impl:
+                return [("illegal arguments accepted", None)]
+            return [] if impl.get("module_raised", True) else \
+                [("FeatureDeltas accepts arguments that feat_deltas rejects", None)]
         if "raised" in impl:
             return [(f"feat_deltas raised {impl['raised']} on legal arguments: {impl['message']}", None)]
         spec = model["spec"]
@@ -743,10 +1042,24 @@ class C18(PropertyCheck):
             fails.append((f"deltas differ from the recursive regression formula on the padded input: {bad}", None))
         if not impl["dtype_ok"]:
             fails.append(("dtype changed", None))
+        if impl["module_equal"] is not True:
+            fails.append((f"FeatureDeltas differs from feat_deltas: {impl['module_equal']}", None))
+        elif not impl.get("defaults_equal", True):
+            fails.append(("leaving out arguments that equal their documented defaults changes the result "
+                          f"(omitted: {sorted(set(self.DELTA_DEFAULTS) - set(self.delta_nondefault(case)))})", None))
+        if not impl.get("input_kept", True):
+            fails.append(("the caller's tensor was modified in place", None))
         return fails
+
+    def delta_nondefault(self, case):
+        return [k for k, v in self.DELTA_DEFAULTS.items()
+                if (float(case[k]) if k == "value" else case[k]) != v]
 
     def pred_return(self, case, impl, model):
         g = float(F(case["gamma"]))
+        if case["stream"] == "malformed":
+            return [(f"{k} on rewards of shape {case['bad_shape']}: {v}, expected RuntimeError", None)
+                    for k, v in impl.items() if v != "RuntimeError"]
         if case.get("long"):
             if not impl["finite"]:
                 return [(f"{impl['nonfinite']} non-finite returns (first at t={impl['first_bad_t']}) for "
@@ -772,6 +1085,8 @@ class C18(PropertyCheck):
             fails.append(("TimeDistributedReturn differs from the functional", None))
         if not impl["dtype_ok"]:
             fails.append(("dtype changed", None))
+        if not impl.get("input_kept", True):
+            fails.append(("the caller's rewards were modified in place", None))
         return fails
 
     # ================================================================ evidence
@@ -783,6 +1098,8 @@ class C18(PropertyCheck):
             return len(case["files"]) >= 2
         if k == "deltas":
             return case["order"] >= 1 and isinstance(impl, dict) and "data" in impl
+        if case["stream"] == "malformed":
+            return False
         return case["gamma"] != "0" and (case.get("T") or len(case["r"]) * case["cols"]) >= 2
 
     def tags(self, case, impl):
@@ -791,27 +1108,42 @@ class C18(PropertyCheck):
         if k == "mvn":
             t += [f"mvn.chunks={len(case['history'])}", f"mvn.tensors={len(case['tensors'])}",
                   f"mvn.rank={len(case['tensors'][0]['shape'])}", f"mvn.dim={case['dim']}",
-                  f"mvn.bessel={case['bessel']}", f"mvn.dtype={case['dtype']}"]
+                  f"mvn.bessel={case['bessel']}", f"mvn.dtype={case['dtype']}", f"mvn.eps={case.get('eps')}",
+                  f"mvn.store_after={self.mid_of(case) is not None}",
+                  f"mvn.mixed_rank={any(case.get('lift') or [])}"]
+            t += [f"mvn.layout={l}" for l in set(case.get("layouts") or ["contig"])]
             if isinstance(impl, dict) and impl.get("store", 1) is None:
                 t.append("mvn.store_raises")
         elif k == "cli":
-            t += [f"cli.groups={case['groups'] is not None}", f"cli.bessel={case['bessel']}", f"cli.dim={case['dim']}"]
+            t += [f"cli.groups={case['groups'] is not None}", f"cli.bessel={case['bessel']}", f"cli.dim={case['dim']}",
+                  f"cli.files={min(len(case['files']), 2)}{'+' if len(case['files']) > 2 else ''}",
+                  f"cli.absent_ids={bool(case.get('absent'))}", f"cli.unlisted={bool(case.get('unlisted'))}",
+                  f"cli.mixed_rank={len(set(len(f['shape']) for f in case['files'])) > 1}",
+                  f"cli.default_names={case['prefix'] == '' and case['suffix'] == '.pt'}"]
         elif k == "deltas":
             D = len(case["shape"])
             t += [f"deltas.order={case['order']}", f"deltas.width={case['width']}", f"deltas.pad={case['pad_mode']}",
                   f"deltas.rank={D}", f"deltas.layout=D{D}:td{case['time_dim']}:dim{case['dim']}:"
                   f"{'cat' if case['concatenate'] else 'stack'}",
-                  "deltas.stream=" + ("exact" if case["width"] == 1 or case["order"] == 0 else "tolerance")]
+                  "deltas.stream=" + ("exact" if case["width"] == 1 or case["order"] == 0 else "tolerance"),
+                  f"deltas.memory={case.get('layout') or 'contig'}", f"deltas.value={case['value']}",
+                  f"deltas.all_defaults={not self.delta_nondefault(case)}", f"deltas.empty={prod(case['shape']) == 0}"]
             if isinstance(impl, dict) and "raised" in impl:
                 t.append("deltas.raised=" + impl["raised"])
         else:
-            t += [f"return.gamma={case['gamma'] if case['stream'] == 'exact' else 'real'}",
-                  f"return.batch_first={case['batch_first']}", f"return.stream={case['stream']}"]
+            t += [f"return.gamma={case['gamma'] if case['stream'] in ('exact', 'malformed') else 'real'}",
+                  f"return.batch_first={case['batch_first']}", f"return.stream={case['stream']}",
+                  f"return.int_gamma={bool(case.get('int_gamma'))}", f"return.memory={case.get('layout') or 'contig'}"]
+            if case["stream"] != "malformed" and not case.get("long"):
+                t.append(f"return.empty={case['rows'] * case['cols'] == 0}")
         return t
 
     def shrink(self, case):
         k = case["kind"]
         if k == "mvn":
+            for opt in ("eps", "layouts", "lift", "store_after"):
+                if case.get(opt) is not None:
+                    yield dict(case, **{opt: None})
             n = len(case["tensors"])
             for drop in range(n):
                 if n <= 1:
@@ -854,6 +1186,8 @@ class C18(PropertyCheck):
                     yield dict(case, T=case["T"] - 1)
                 if case["N"] > 1:
                     yield dict(case, N=1)
+                return
+            if case["stream"] == "malformed":
                 return
             rows, cols = case["rows"], case["cols"]
             if rows > 1:
